@@ -251,7 +251,7 @@ func runCheck(repo, prop, tier string, seed, workers int, only string) int {
 		for _, args := range insts {
 			km, kl := mkKnown("")
 			rc := interp.RunConfig{Harness: h.Name, Args: args, MaxSteps: tc.MaxSteps, MaxDecs: tc.MaxDecs, MaxPaths: tc.MaxPaths, MaxConc: tc.MaxConc,
-				Known: km, StopOnViolation: true, CrossCheck: cross, CrossTimeout: 60 * time.Second, Solver: tc.Solver}
+				Known: km, StopOnViolation: true, CrossCheck: cross, CrossTimeout: 20 * time.Second, Solver: tc.Solver}
 			res, err := interp.Explore(prog, pool, rc)
 			if err != nil {
 				fmt.Fprintln(os.Stderr, "explore:", err)
@@ -283,7 +283,7 @@ func runCheck(repo, prop, tier string, seed, workers int, only string) int {
 	// ---- collect
 	var cases []replayCase
 	var inconclusive []string
-	paths, queries, assertQ, crossN := 0, 0, 0, 0
+	paths, queries, assertQ, crossN, crossU := 0, 0, 0, 0, 0
 	solverT := 0.0
 	coversSeen := map[string]bool{}
 	assertsSeen := map[string]bool{}
@@ -300,6 +300,7 @@ func runCheck(repo, prop, tier string, seed, workers int, only string) int {
 		assertQ += res.AssertQ
 		solverT += res.SolverTime
 		crossN += res.CrossChecked
+		crossU += res.CrossUnknown
 		hstats := perHarness[r.h.Name]
 		if hstats == nil {
 			hstats = map[string]interface{}{"instances": 0, "paths": 0, "queries": 0}
@@ -484,6 +485,7 @@ func runCheck(repo, prop, tier string, seed, workers int, only string) int {
 		"discharged":                    assertQ,
 		"assertion_queries":             assertQ,
 		"cross_checked_queries":         crossN,
+		"cross_check_timeouts":          crossU,
 		"solver_time_s":                 solverT,
 		"solvers":                       solversUsed(tier),
 		"functions_encoded":             filterFns(fnSeen),
